@@ -61,6 +61,10 @@ var _ p.DataProvider = urlDataProvider{}
 func (u urlDataProvider) Get(key string) any {
 	// if query param ends with [] its always a slice
 	if len(key) > 2 && key[len(key)-2:] == "[]" {
+		if _, ok := u.Data[key]; !ok {
+			// a missing parameter is absent, not an empty list
+			return nil
+		}
 		return u.Data[key]
 	}
 
